@@ -13,7 +13,8 @@ LEVEL = "other"
 MODULE = "PropC09"
 THEOREMS = ["C09_error_leaves_clean_machine", "C09_growStack_only_grows", "C09_push_pop_balanced",
             "C09_pushframe_popframe_balanced", "C09_pure_expression_is_balanced", "C09_statement_is_balanced",
-            "C09_statement_is_balanced_file_mode", "C09_definition_is_balanced"]
+            "C09_statement_is_balanced_file_mode", "C09_definition_is_balanced",
+            "C09_statement_leaves_top_level", "C09_definition_leaves_top_level"]
 
 BODY_TAILS = [
     ("assign", "t = t + i"),
